@@ -28,6 +28,23 @@ def _own_panics(b):
     return dbg, rel
 
 
+def _release_panics_below(facts, b, depth, seen):
+    """release-mode explicit panic sites in the in-crate functions reachable from b (resolved callees, depth <= 4)"""
+    if depth > 4:
+        return 0
+    n = 0
+    view = mir.BodyView(b)
+    for bi, t in view.calls():
+        if view.blocks[bi]["cleanup"]:
+            continue
+        res = t["f"].get("res")
+        if res and res in facts.bodies and res not in seen:
+            seen.add(res)
+            cb = facts.bodies[res]
+            n += _own_panics(cb)[1] + _release_panics_below(facts, cb, depth + 1, seen)
+    return n
+
+
 def run(facts, report, config, select, prefix, counter="documented_panics"):
     for b in facts.fn_bodies():
         if b["kind"] == "Closure" or not select(b):
@@ -38,12 +55,7 @@ def run(facts, report, config, select, prefix, counter="documented_panics"):
         report.count(counter)
         key = "%s|%s" % (prefix, norm_id(b["id"]))
         dbg, rel = _own_panics(b)
-        callee_rel = 0
-        view = mir.BodyView(b)
-        for bi, t in view.calls():
-            res = t["f"].get("res")
-            if res and res in facts.bodies and res != b["id"]:
-                callee_rel += _own_panics(facts.bodies[res])[1]
+        callee_rel = _release_panics_below(facts, b, 0, {b["id"]})
         if dbg and not rel and not callee_rel:
             report.add(Instance(key, prefix, "violation",
                                 "`%s` is documented to panic ('%s') but its only explicit panic site(s) are debug assertions "
@@ -51,6 +63,6 @@ def run(facts, report, config, select, prefix, counter="documented_panics"):
                                     b.get("name"), m.group(0)[:90], dbg), b["span"], {"body": b["id"], "doc": m.group(0)}), config)
         else:
             report.add(Instance(key, prefix, "ok" if (rel or callee_rel) else "info",
-                                "auto: a release-mode panic site exists (%d own, %d in direct callees)" % (rel, callee_rel)
+                                "auto: a release-mode panic site exists (%d own, %d in callees)" % (rel, callee_rel)
                                 if (rel or callee_rel) else "documented panic comes from a deeper callee or a compiler-inserted "
                                 "check: not judged", b["span"], {"body": b["id"]}), config)
